@@ -9,7 +9,7 @@ git -C /repo worktree add -q $W HEAD || exit 2
 cd $W
 cp $D/demo.py $W/_demo.py
 base_demo=$( /venv/bin/python _demo.py >/dev/null 2>&1; echo $? )
-if ! git apply $D/patch.diff; then echo "SEED $D: patch does not apply"; git -C /repo worktree remove --force $W; exit 2; fi
+if ! git apply -3 $D/patch.diff 2>/dev/null; then echo "SEED $D: patch does not apply"; git -C /repo worktree remove --force $W; exit 2; fi
 tests=$( /venv/bin/python -m pytest -p no:cacheprovider -o addopts="" -q 2>&1 | tail -1 )
 mut_demo=$( /venv/bin/python _demo.py >/dev/null 2>&1; echo $? )
 cd /verif
